@@ -122,10 +122,11 @@ def variants(rng, c):
         out.append(('pruned', c, dp))
     except Exception:
         pass
-    try:
-        out.append(('loaded', c, dc.save_load(d, rng.choice(['hdf5', 'fits']))))
-    except Exception:
-        pass
+    for fmt in (['fits', 'hdf5'] if np.dtype(c.get('dtype', 'float64')).kind in 'iu' else [rng.choice(['hdf5', 'fits'])]):
+        try:
+            out.append(('loaded', c, dc.save_load(d, fmt)))
+        except Exception:
+            pass
     return out
 
 
@@ -142,6 +143,13 @@ def explore(ctx):
             c.pop('den', None)
         if rng.random() < 0.3:
             c['vals'] = [None if (rng.random() < 0.2 and i > 0) else v for i, v in enumerate(c['vals'])]
+        if c.get('scale', 0) == 0 and not c.get('den') and all(v is not None for v in c['vals']) and rng.random() < 0.4:
+            # integer pixels (FITS stores unsigned types and int8 with an offset): the reloaded copy must still be equal
+            c['dtype'] = rng.choice(['uint8', 'uint16', 'uint32', 'int8', 'int16', 'uint16'])
+            c['vals'] = [abs(int(v)) % 120 for v in c['vals']]
+            if c.get('minv') is not None:
+                c['minv'] = abs(int(c['minv'])) % 120
+            ctx.count('integer_dtype_cases')
         try:
             vs = variants(rng, c)
             views = []
@@ -155,6 +163,20 @@ def explore(ctx):
         except Exception as e:
             ctx.oracle_failure(c, ['could not build the variants: %r' % (e,)], {})
             continue
+        # "a dendrogram equals its own saved-and-loaded copy"
+        base = vs[0][2]
+        for name, cc_, dd in vs:
+            if name != 'loaded':
+                continue
+            if any(dd.params.get(k_) != base.params.get(k_) for k_ in ('min_value', 'min_delta', 'min_npix')):
+                ctx.count('loaded_copy_with_other_parameters(C09,K6)')     # a FITS header keeps 20 characters of a float
+                continue
+            try:
+                if not (bool(base == dd) and bool(dd == base)):
+                    ctx.oracle_failure({'case': c, 'a': 'base', 'b': 'loaded'},
+                                       ['a dendrogram does not compare equal to its own saved-and-loaded copy (data dtype %s -> %s)' % (base.data.dtype, dd.data.dtype)], {})
+            except Exception as e:
+                ctx.oracle_failure({'case': c, 'a': 'base', 'b': 'loaded'}, ['== with the loaded copy raised %r' % (e,)], {})
         for ia, (na, ca, da, va) in enumerate(views):
             for other in (5, 'x', None, da.data):
                 r = (da == other)
